@@ -199,7 +199,7 @@ func (g *progGen) expr(d int) string {
 func (g *progGen) rare(d int) string {
 	r := g.r
 	e := func() string { return g.expr(d - 1) }
-	switch r.intn(34) {
+	switch r.intn(36) {
 	case 0:
 		return "f()" // unknown function, empty argument list
 	case 1:
@@ -266,8 +266,17 @@ func (g *progGen) rare(d int) string {
 		return "if " + e() + " then " + e() // missing else
 	case 32:
 		return "(" + e() + "," + e() + ")" // tuple-like
-	default:
+	case 33:
 		return "x->x->x" + pick(r, "", "(1)", "->")
+	default:
+		// constant sub-programs whose evaluation inside Generate (constant folding) misbehaves:
+		// self-application, runaway recursion without a name, huge constant recursion depth
+		return pick(r, "(x->x(x))(x->x(x))", "let w=x->x(x); w(w)+a", "let r=(x->x(x))(x->x(x)); a",
+			"let c=(s,n)->if n=0 then 0 else s(s,n-1); c(c,20000)+a", "let c=(s,n)->if n=0 then 0 else s(s,n-1)+1; c(c,50)+a",
+			"let w=x->[x].map(y->y(y))[0]; w(w)", "let w=x->[x].map(y->y(y)).first(); [w(w)]",
+			"(f->f(f)(f))(g->g)", "let y=f->(x->x(x))(x->f(z->x(x)(z))); y(h->n->if n<1 then 1 else n*h(n-1))(5)",
+			"throw(\"at generate time\")+a", "[1,2,3][5]+a", "{a:1}.b+a", "1%0+a", "(1<<(0-1))+a", "numbers(5).map(x->x%0).sum()+a",
+			"numbers(3).multiUse({s:l->l.sum(), t:l->l.map(x->x(x)).sum()}).s+a")
 	}
 }
 
@@ -382,6 +391,15 @@ func genParseText(r *rng, kind string, maxLen int) ([]byte, string) {
 			s[i] = byte(r.intn(256))
 		}
 		return s, "random-bytes"
+	case c == 19 && r.chance(0.5):
+		// long postfix / operator chains
+		unit := pick(r, "(1)", "[0]", ".a", ".size()", "+1", "*a", "-a-1", "&true", "(a)(b)", ".map(x->x)", "²", " a")
+		head := pick(r, "[sqrt][0]", "f", "a", "[[1]]", "{a:{a:1}}", "x->x", "numbers(3)", "1")
+		n := r.rangeInt(10, maxLen/(len(unit)+1))
+		if r.chance(0.7) {
+			n = r.rangeInt(10, 300)
+		}
+		return []byte(head + strings.Repeat(unit, n)), "chain"
 	default:
 		// nesting
 		depth := r.rangeInt(10, maxLen/4)
